@@ -180,14 +180,20 @@ def run(tier):
     import BPTK_Py.server.bptkServer as srv
     rep = harness.Report(PID, tier, "model_checking", MODULE)
     rep.encoded(srv.BptkServer.token_required, srv.BptkServer.__init__)
-    hm, tm, tmo = (5, 2, 150) if tier == "quick" else (7, 3, 1500)
+    # the claim (both tiers): header <= 5, token <= 2 characters; the thorough tier adds header <= 7, token <= 3
+    # under a wall-time budget (not explored if CrossHair does not finish)
+    hm, tm, tmo = 5, 2, (150 if tier == "quick" else 300)
     env = {"C15_HMAX": str(hm), "C15_TMAX": str(tm)}
-    jobs = [(HFILE, "_served_only_with_token", tmo, env, "main"),
-            (HFILE, "_served_only_with_token_twin", 60, env, "twin"),
-            (HFILE, "_served_when_token_presented", tmo, env, "live"),
-            (HFILE_MUT, "_served_only_with_token", 120, {"C15_HMAX": "5", "C15_TMAX": "2"}, "canary")]
-    ex = ThreadPoolExecutor(max_workers=4)
-    futs = [ex.submit(chx.run_condition, j[0], j[1], j[2], j[3]) for j in jobs]
+    jobs = [(HFILE, "_served_only_with_token", tmo, env, "main", True),
+            (HFILE, "_served_only_with_token_twin", 60, env, "twin", True),
+            (HFILE, "_served_when_token_presented", tmo, env, "live", True),
+            (HFILE_MUT, "_served_only_with_token", 120, {"C15_HMAX": "5", "C15_TMAX": "2"}, "canary", True)]
+    if tier == "thorough":
+        deep = {"C15_HMAX": "7", "C15_TMAX": "3"}
+        jobs += [(HFILE, "_served_only_with_token", 1200, deep, "main", False),
+                 (HFILE, "_served_when_token_presented", 1200, deep, "live", False)]
+    ex = ThreadPoolExecutor(max_workers=1)
+    futs_all = ex.submit(chx.run_jobs, [(j[0], j[1], j[2], j[3], j[5]) for j in jobs])
     # ---- part 2 while CrossHair runs
     root = tempfile.mkdtemp(prefix="c15-root-")
     served_ok = 0
@@ -220,10 +226,10 @@ def run(tier):
                             samples.append({"request": "%s %s" % (method, url), "credentials": cn, "state": kind, "refused_cleanly": res is None})
     finally:
         shutil.rmtree(root, ignore_errors=True)
-    results = [f.result() for f in futs]
+    results = futs_all.result()
     ex.shutdown()
     confirmed = 0
-    for (hf, fn, t, e, kind), r in zip(jobs, results):
+    for (hf, fn, t, e, kind, req), r in zip(jobs, results):
         if kind == "twin":
             if r.verdict != chx.VERDICT_CEX:
                 rep.inconcl("reachability twin gave no witness: %s" % r.message[:200])
@@ -238,7 +244,7 @@ def run(tier):
                         "token": a.get("token", a.get("_pos2"))}
                 rep.candidate("decorator:served-without-token", case, "decorator counterexample %r" % (case,))
             else:
-                rep.inconcl("%s: CrossHair verdict %s (%s)" % (fn, r.verdict, r.message[:200]))
+                chx.unfinished(rep, "%s (header <= %s, token <= %s)" % (fn, e.get("C15_HMAX"), e.get("C15_TMAX")), r, req)
         samples.append({"condition": fn + "/" + kind, "verdict": r.verdict, "seconds": round(r.seconds, 1)})
     rep.assume("decorator: header <= %d characters, token <= %d characters (symbolic unicode strings), presence flag symbolic" % (hm, tm),
                "route table: enumerated from the live app's url_map (finite); credential shapes are %d fixed boundary cases; four server states (no instance, session, locked session, session persisted but not in memory)" % len(credentials(TOKEN)),
